@@ -93,7 +93,7 @@ def generate(rseed, tier, idx):
         else:
             tree["link.css"] = {"k": "link", "to": "sub/nothing.css", "linkobj": True}
     if g.random() < 0.25:
-        tree[g.choice(inputs)[:-4] + "_cm.css"] = {"k": "text", "text": ".old{color:#000", "stale": True}
+        tree[g.choice(inputs)[:-4] + "_cm.css"] = {"k": "text", "text": g.choice((".old{color:#000", ".leftover{color:#111111;margin:0}\n" * 60)), "stale": True}
     pre_report = g.random() < 0.25
     cm_named = None
     if g.random() < 0.3:
